@@ -14,6 +14,12 @@
 
 namespace rime {
 
+#ifdef RIME_VERIF
+namespace verif {
+CrashPointHook crashpoint_hook = nullptr;
+}  // namespace verif
+#endif  // RIME_VERIF
+
 class MappedFileImpl {
  public:
   enum OpenMode {
@@ -52,6 +58,7 @@ MappedFile::~MappedFile() {
 }
 
 bool MappedFile::Create(size_t capacity) {
+  RIME_VERIF_CRASHPOINT("mapped_file.create:enter");
   if (Exists()) {
     LOG(INFO) << "overwriting file '" << file_path_ << "'.";
     Resize(capacity);
@@ -67,6 +74,7 @@ bool MappedFile::Create(size_t capacity) {
     }
     fbuf.close();
   }
+  RIME_VERIF_CRASHPOINT("mapped_file.create:sized");
   LOG(INFO) << "opening file for read/write access.";
   file_.reset(new MappedFileImpl(file_path_, MappedFileImpl::kOpenReadWrite));
   size_ = 0;
@@ -129,11 +137,13 @@ bool MappedFile::Resize(size_t capacity) {
   LOG(INFO) << "resize file to: " << capacity;
   if (IsOpen())
     Close();
+  RIME_VERIF_CRASHPOINT("mapped_file.resize:before");
   try {
     std::filesystem::resize_file(file_path_, capacity);
   } catch (...) {
     return false;
   }
+  RIME_VERIF_CRASHPOINT("mapped_file.resize:after");
   return true;
 }
 
